@@ -20,7 +20,7 @@ RULE = ("all 64 subsets S of {sources, outputs, attachments, metadata, id, detai
         "equals the projection of B; (3) only-ignored differences => empty diff; (4) after reset_notebook_differ the diff equals the "
         "unconfigured one and the table is back to defaults. Non-trivial: S non-empty and the unconfigured diff touches a category in S; "
         "distinct by (S, route, pair).")
-FLOOR = {"quick": 1500, "thorough": 25000}
+FLOOR = {"quick": 1500, "thorough": 20000}
 REQUIRED_MONITORS = ("inside_ignored", "projected_roundtrip", "only_ignored_empty", "reset")
 ASSUMPTIONS = ["category -> path table from set_notebook_diff_targets' docstring / CLI help / docs/source/config.rst",
                "naming some categories positively ignores all the others (documented exclusive-flag behaviour)"]
@@ -40,7 +40,7 @@ FLAG = {"sources": "s", "outputs": "o", "attachments": "a", "metadata": "m", "id
 def plan(tier, seed):
     if tier == "quick":
         return [{"i": i, "n": NSHARDS, "pairs_per_cfg": 10, "timeout": 900} for i in range(NSHARDS)]
-    return [{"i": i, "n": NSHARDS, "pairs_per_cfg": 26, "timeout": 3000} for i in range(NSHARDS)]
+    return [{"i": i, "n": NSHARDS, "pairs_per_cfg": 130, "timeout": 3000} for i in range(NSHARDS)]
 
 
 def leaf_paths(diff, path=""):
